@@ -54,11 +54,25 @@ func c01Scenario(h http.Handler, kind int, integrity bool) {
 	// metadata: presence flags and values are free
 	meta := map[string]string{}
 	hdr := http.Header{}
-	for _, name := range []string{"Content-Type", "Content-Encoding", "Content-Disposition", "X-Amz-Meta-A"} {
-		if vsym.Choice("has-"+name, 2) == 1 {
-			v := vsym.String("v-"+name, 1)
-			meta[name] = v
-			hdr.Set(name, v)
+	names := []string{"Content-Type", "Content-Encoding", "Content-Disposition", "X-Amz-Meta-A"}
+	if vsym.Param("fullmeta", 0) == 1 {
+		// every subset of the metadata headers
+		for _, name := range names {
+			if vsym.Choice("has-"+name, 2) == 1 {
+				v := vsym.String("v-"+name, 1)
+				meta[name] = v
+				hdr.Set(name, v)
+			}
+		}
+	} else {
+		// none, all, or only the user metadata header
+		which := vsym.Choice("metaset", 3)
+		for i, name := range names {
+			if which == 1 || (which == 2 && i == 3) {
+				v := vsym.String("v-"+name, 1)
+				meta[name] = v
+				hdr.Set(name, v)
+			}
 		}
 	}
 	if vsym.Choice("prior", 2) == 1 { // an older object at the key, with other metadata
